@@ -235,6 +235,79 @@ FS_WRITE = ("std::fs::File::create", "std::fs::File::create_new", "std::fs::writ
             "std::fs::File::set_len", "std::fs::hard_link", "std::fs::create_dir_all", "std::fs::create_dir")
 
 
+ENDLESS_SOURCES = ("std::iter::successors", "std::iter::repeat", "std::iter::repeat_with", "std::iter::from_fn", "std::iter::Iterator::cycle",
+                   "core::iter::successors", "core::iter::repeat", "core::iter::repeat_with", "core::iter::from_fn")
+# steps that cannot be taken for ever: towards the root / the end of a finite tree or path, towards zero, towards the empty string
+WELL_FOUNDED_STEPS = ("Node::<'a, 'input>::parent", "Node::<'a, 'input>::parent_element", "Node::<'a, 'input>::next_sibling",
+                      "Node::<'a, 'input>::prev_sibling", "Node::<'a, 'input>::next_sibling_element", "Node::<'a, 'input>::prev_sibling_element",
+                      "Node::<'a, 'input>::first_child", "Node::<'a, 'input>::last_child", "Node::<'a, 'input>::first_element_child",
+                      "std::path::Path::parent", "std::error::Error::source", "::checked_sub", "::checked_div", "str>::strip_prefix", "str>::strip_suffix")
+
+
+def scan_endless_iterators(crate):
+    """Iterator sources that have no end of their own. -> [(fn, site, source, verdict)] with verdict 'well-founded' (a `successors`
+    whose step function only makes well-founded steps), 'bounded' (consumed through `take`) or 'endless'."""
+    out = []
+    for b in bodies(crate):
+        B = M.Body(b)
+        for bb, t in B.calls():
+            d = M.Body.callee_decl(t) or ""
+            if d not in ENDLESS_SOURCES:
+                continue
+            verdict = "endless"
+            if d.endswith("successors") and len(t.get("args") or []) == 2:
+                for o in M.trace(B, t["args"][1], ()):
+                    if o.kind == "aggregate" and o.rv.get("closure"):
+                        cb = crate.body(o.rv["closure"])
+                        if cb is not None and cb.get("mir"):
+                            CB = M.Body(cb)
+                            steps = [M.Body.callee_decl(ct) or "" for _b, ct in CB.calls()]
+                            real = [s_ for s_ in steps if not s_.endswith(M.IDENTITY_CALLS) and not s_.endswith(("Option<T>>::copied", "Option<T>>::cloned"))]
+                            if real and all(s_.endswith(WELL_FOUNDED_STEPS) for s_ in real) and not M.cfg_cycles(CB):
+                                verdict = "well-founded"
+                    elif o.kind == "const" and str(o.const.get("fn_path", "")).endswith(WELL_FOUNDED_STEPS):
+                        verdict = "well-founded"
+            if verdict == "endless" and t.get("dest") is not None:
+                dl = t["dest"]["l"]
+                for bb2, t2 in B.calls():
+                    if (M.Body.callee_decl(t2) or "").endswith(("Iterator::take", "Iterator::zip")) and t2.get("args"):
+                        if any(getattr(o, "bb", None) == bb and o.kind == "call" for o in M.trace(B, t2["args"][0], ())):
+                            verdict = "bounded"
+            out.append((b["path"], _site(B, bb), d, verdict))
+    return out
+
+
+def open_options_flags(B, t, _depth=0):
+    """{builder method: constant bool argument (None when not a constant)} of the `OpenOptions` value a call to `OpenOptions::open`
+    is made on, followed back through the builder calls (each returns its receiver) to `OpenOptions::new` / `File::options`;
+    None when the chain cannot be followed"""
+    flags = {}
+    cur = t["args"][0] if t.get("args") else None
+    for _ in range(12):
+        if cur is None:
+            return None
+        os_ = M.trace(B, cur, ())
+        calls = [o for o in os_ if o.kind == "call"]
+        if len(os_) != 1 or len(calls) != 1:
+            return None
+        ct = calls[0].term
+        decl = M.Body.callee_decl(ct) or ""
+        if decl in ("std::fs::OpenOptions::new", "std::fs::File::options"):
+            return flags
+        if not decl.startswith("std::fs::OpenOptions::") or not ct.get("args"):
+            return None
+        name = decl.rsplit("::", 1)[-1]
+        val = None
+        if len(ct["args"]) == 2:
+            cs = M.trace(B, ct["args"][1], ())
+            if len(cs) == 1 and cs[0].kind == "const":
+                v = cs[0].const.get("v", cs[0].const.get("text"))
+                val = True if str(v).lower() in ("true", "1") else False if str(v).lower() in ("false", "0") else None
+        flags.setdefault(name, val)
+        cur = ct["args"][0]
+    return None
+
+
 def scan_fs_effects(crate):
     out = []
     for b in bodies(crate):
